@@ -36,8 +36,8 @@ Proof.
   - intros H. apply nsout_eqb_eq in H. now subst.
   - rewrite andb_true_iff. intros [H1 H2]. apply (list_eqb_eq N.eqb N.eqb_eq) in H2. subst.
     destruct oc, oc0; try discriminate; reflexivity.
-  - rewrite !andb_true_iff. intros [[[H1 H2] H3] H4].
-    apply ss_eqb_eq in H1. apply ss_eqb_eq in H2. apply sn_eqb_eq in H3. apply ns_eqb_eq in H4. now subst.
+  - rewrite !andb_true_iff. intros [[[[H1 H2] H3] H4] H5].
+    apply ss_eqb_eq in H1. apply ss_eqb_eq in H2. apply sn_eqb_eq in H3. apply ns_eqb_eq in H4. apply sn_eqb_eq in H5. now subst.
 Qed.
 
 Lemma houts_eqb_eq a b : list_eqb hout_eqb a b = true -> a = b.
@@ -138,6 +138,31 @@ Section Fixed.
     - cbn [fst snd wns]. split; [exact Hg2|]. split; reflexivity.
   Qed.
 
+  Lemma restart_good crash st : good st -> good (id_restart L crash st).
+  Proof.
+    intros [Hi Ha]. split; [apply (id_restart_spec L HL crash _ Hi)|]. unfold alive. cbn. discriminate.
+  Qed.
+
+  Lemma crash_write_good tp k ds ents pt w :
+    wgood w ->
+    wgood (fst (crash_write v_fixed L tp k ds ents pt w)) /\ hout_good (snd (crash_write v_fixed L tp k ds ents pt w))
+    /\ handles (wns (fst (crash_write v_fixed L tp k ds ents pt w))) = handles (wns w)
+    /\ exists oc ids, snd (crash_write v_fixed L tp k ds ents pt w) = HOBatch oc ids.
+  Proof.
+    intros Hg. unfold crash_write. destruct ents as [|e ents]; [cbn; split; [exact Hg|]; split; [reflexivity|]; split; [reflexivity | eauto]|].
+    pose proof (run_ents_good ds (wdata w) (e :: ents) (wid w) Hg) as H.
+    destruct (run_ents L ds (wdata w) (e :: ents) (wid w)) as [[[[s1 oc] ids] ni] pd].
+    destruct H as [Hg1 Ho].
+    destruct oc; try (cbn [fst snd wns wid]; split; [exact Hg1|]; split; [now apply oc_ok_out|]; split; [reflexivity | eauto]).
+    assert (Hc : match k with None => commit_main s1 | Some k0 => commit_ctx (v_ctx v_fixed) k0 s1 end = commit_main s1)
+      by (destruct k; reflexivity).
+    destruct pt as [|pt'].
+    - cbn [fst snd wns wid]. split; [now apply restart_good|]. split; [reflexivity|]. split; [reflexivity | eauto].
+    - cbn [v_order v_fixed]. rewrite Hc. destruct (commit_main_good s1 Hg1) as [Hg2 Hr].
+      destruct (commit_main s1) as [s2 r]. cbn [fst snd] in Hg2, Hr. subst r.
+      destruct pt'; cbn [fst snd wns wid]; (split; [now apply restart_good|]; split; [reflexivity|]; split; [reflexivity | eauto]).
+  Qed.
+
   Lemma wstep_good op w :
     wgood w -> wgood (fst (wstep v_fixed L op w)) /\ hout_good (snd (wstep v_fixed L op w)).
   Proof.
@@ -148,6 +173,7 @@ Section Fixed.
     - destruct (write_path_good (Some k) ds ents w Hg) as (H1 & H2 & _). split; assumption.
     - cbn. split; [|reflexivity]. destruct Hg as [Hi Ha]. split; [apply (id_restart_spec L HL crash _ Hi)|].
       unfold alive. cbn. discriminate.
+    - destruct (crash_write_good txn_path k ds ents pt w Hg) as (H1 & H2 & _). split; assumption.
     - cbn. split; [exact Hg | reflexivity].
   Qed.
 
@@ -180,6 +206,11 @@ Section Fixed.
       destruct (run_ents L ds (wdata w) (e :: ents) (wid w)) as [[[[s1 oc] ids] ni] pd].
       destruct oc; try reflexivity. destruct (commit_ctx (v_ctx v_fixed) k s1) as [s2 r]. destruct r; try reflexivity.
       destruct ((0 <? ni)%nat && negb (str_eqb ds s_core)); [destruct (nested_update L ds s2)|]; reflexivity.
+    - unfold crash_write. destruct ents; [reflexivity|].
+      destruct (run_ents L ds (wdata w) (e :: ents) (wid w)) as [[[[s1 oc] ids] ni] pd].
+      destruct oc; try reflexivity. destruct pt as [|pt']; [reflexivity|]. cbn [v_order v_fixed].
+      destruct (match k with None => commit_main s1 | Some k0 => commit_ctx (v_ctx v_fixed) k0 s1 end) as [s2 r].
+      destruct r; destruct pt'; reflexivity.
   Qed.
 
   Lemma write_path_out v k ds ents w : exists oc ids, snd (write_path v L k ds ents w) = HOBatch oc ids.
@@ -198,6 +229,11 @@ Section Fixed.
     destruct op; cbn [wstep]; try exact I.
     - destruct (write_path_out v_fixed None ds ents w) as (oc & ids & ->). exact I.
     - destruct (write_path_out v_fixed (Some k) ds ents w) as (oc & ids & ->). exact I.
+    - unfold crash_write. destruct ents; [exact I|].
+      destruct (run_ents L ds (wdata w) (e :: ents) (wid w)) as [[[[s1 oc] ids] ni] pd].
+      destruct oc; try exact I. destruct pt as [|pt']; [exact I|]. cbn [v_order v_fixed].
+      destruct (match k with None => commit_main s1 | Some k0 => commit_ctx (v_ctx v_fixed) k0 s1 end) as [s2 r].
+      destruct r; destruct pt'; exact I.
   Qed.
 
   Lemma snapshot_wrun ops : forall w fetched,
